@@ -33,6 +33,9 @@ type C04Case struct {
 	ReqID  string          `json:"request_id,omitempty"`
 	Query  spsim.AttrQuery `json:"query"`
 	Relay  string          `json:"relay_state,omitempty"`
+	Noise  bool            `json:"noise,omitempty"`
+	// Rotate: the storage rolls the response-signing key over after the noise round (or a first metadata fetch).
+	Rotate bool `json:"rotate_key,omitempty"`
 }
 
 // c04Tame switches the string generators of a case to characters that need no escaping.
@@ -143,6 +146,8 @@ func genC04Case(t *rapid.T) C04Case {
 		c.Query = q
 	}
 	c.Spec = spec
+	c.Noise = rapid.IntRange(0, 2).Draw(t, "noise") == 0
+	c.Rotate = rapid.IntRange(0, 3).Draw(t, "rotate") == 0
 	return c
 }
 
@@ -219,7 +224,18 @@ func verifyEnvelopedOnWire(kind string, wire []byte, node *xt.Node, certB64 stri
 }
 
 func c04Run(c C04Case, stats map[string]int) (vs []*ev.Violation, signedStrings map[string][]string, artefact string) {
-	w := mustBuild(c.Spec)
+	wspec := c.Spec
+	if c.Noise {
+		wspec = withNoise(wspec)
+	}
+	w := mustBuild(wspec)
+	if c.Noise {
+		runNoise(w, wspec)
+	}
+	if c.Rotate {
+		obs.Do(w.Handler, obs.HTTPReq{Method: "GET", Path: c.Spec.IdP.Route("metadata"), Host: c.Host})
+		w.Store.RotateResponseKey("sp-2048")
+	}
 	signedStrings = map[string][]string{}
 	add := func(v *ev.Violation) {
 		if v != nil {
